@@ -105,6 +105,18 @@ Theorem parse_is_spec : forall dbg e spec bs,
   end.
 Proof. exact AttrProofs.parse_attribute_direct. Qed.
 
+Example parse_is_spec_ex :    (* a guard error: DW_FORM_addr with an address size the reader refuses *)
+  parse_attribute false (mkEnc 4 false 3 false) (mkSpec 17 DW_FORM_addr 0) [x01;x02;x03]%byte
+  = Err EUnsupportedAddressSize.
+Proof. reflexivity. Qed.
+
+Example parse_indirect_ex :   (* indirect -> indirect -> data1; indirect -> implicit_const is refused *)
+  parse_attribute true (mkEnc 4 false 4 false) (mkSpec 3 DW_FORM_indirect 9) [x16;x0b;x2a;xee]%byte
+  = Ok (VData1 42, [xee]%byte) /\
+  parse_attribute true (mkEnc 5 false 4 false) (mkSpec 3 DW_FORM_indirect 9) [x21;xee]%byte
+  = Err EInvalidImplicitConst.
+Proof. split; reflexivity. Qed.
+
 Theorem parse_indirect : forall dbg e spec bs,
   at_form spec = DW_FORM_indirect ->
   parse_attribute dbg e spec bs =
@@ -143,6 +155,12 @@ Example normalise_payload_ex :
   attr_normalise 16 (VSecOffset 9) = VDebugLineRef 9.
 Proof. repeat split; reflexivity. Qed.
 
+Example parsed_values_in_range_ex :
+  let spec := mkSpec 58 DW_FORM_implicit_const (-5) in
+  (-9223372036854775808 <= at_implicit spec < 9223372036854775808)%Z /\
+  parse_attribute true (mkEnc 5 false 8 false) spec [x01]%byte = Ok (VSdata (-5), [x01]%byte).
+Proof. split; [split; reflexivity|reflexivity]. Qed.
+
 Theorem parsed_values_in_range : forall dbg e spec bs v r,
   (-9223372036854775808 <= at_implicit spec < 9223372036854775808)%Z ->
   parse_attribute dbg e spec bs = Ok (v, r) -> value_in_range v.
@@ -164,6 +182,11 @@ Example udata_sdata_ex :
   udata_value (VSdata (-1)) = None /\ sdata_value (VUdata 9223372036854775808) = None /\
   sdata_value (VUdata 9223372036854775807) = Some 9223372036854775807%Z.
 Proof. repeat split; reflexivity. Qed.
+
+Example udata_sdata_agree_ex :
+  value_in_range (VData1 127) /\ udata_value (VData1 127) = Some 127 /\
+  sdata_value (VData1 127) = Some 127%Z /\ (0 <= 127)%Z.
+Proof. repeat split; try reflexivity; discriminate. Qed.
 
 Theorem udata_sdata_agree : forall v u s,
   value_in_range v -> udata_value v = Some u -> sdata_value v = Some s -> (0 <= s)%Z -> Z.of_N u = s.
